@@ -168,6 +168,8 @@ type facts struct {
 	ConfigWrites []string            `json:"config_writes"`
 	Modes        map[string]string   `json:"modes"`
 	Notes        []string            `json:"notes"`
+	Funcs        map[string]string   `json:"funcs"` // Lean text of every transliterated function (funcs.go)
+	FuncsFailed  map[string]string   `json:"funcs_failed"` // functions funcs.go could not transliterate, with the reason
 }
 
 func main() {
@@ -187,7 +189,8 @@ func main() {
 	write(filepath.Join(out, "Consts.lean"), renderConsts(F))
 	write(filepath.Join(out, "Modes.lean"), modes)
 	write(filepath.Join(out, "Structural.lean"), structural)
-	write(filepath.Join(out, "Funcs.lean"), extractFuncs(snaps))
+	difflib := loadPkg(filepath.Join(repo, "internal", "difflib"))
+	write(filepath.Join(out, "Funcs.lean"), extractFuncs(map[string]*pkgInfo{"snaps": snaps, "difflib": difflib}, F))
 	b, _ := json.MarshalIndent(F, "", " ")
 	write(filepath.Join(out, "facts.json"), string(b))
 }
